@@ -1053,7 +1053,7 @@ def c16(tier, rep):
     progs = fo.programs(tier)
     fr = e2.run_family("c16joiners", progs, extra_header=fp.HEADER + fo.PRE)
     judge_family(rep, fr)
-    tp = fo.transpose_programs() + fo.transpose_on_non_try_programs()
+    tp = fo.transpose_programs() + fo.transpose_on_non_try_programs() + fo.lazy_false_callable_programs()
     fr2 = e2.run_family("c16transpose", tp, extra_header=fp.HEADER + fo.TRANSPOSE_PRE)
     judge_family(rep, fr2)
     f3 = fo.fut03_programs(tier)
@@ -1062,7 +1062,7 @@ def c16(tier, rep):
     exe = e1.build()
     d = e1_mode(rep, exe, ["opts", "options"], "C16", "option parsing")
     rep.set("option_selections", d["selections"] if d else 0)
-    rep.set("rule", "E1: all 65 ordered duplicate-free selections of the four options and every selection with one duplicate inserted at every position x 2 value sets x 6 configs: accepted iff duplicate-free, parsed fields equal the written ones, futures_crate_path rejected for sync macros and used for every futures item; E2: depth profiles n<=3,d<=3 x {variadic macro joiner, fixed-arity fn joiner, lazy joiner that invokes its closures in REVERSE order, async joiners} in sync/spawn/async kinds with every failure subset: exactly one joiner event per step with > 1 active branches, arity = active count, result positions, lazy order; transpose_results(false) with a try-collecting joiner and injected joiner failures per step; transpose_results(true / false) written on the four non-try kinds (int- and Option-valued branches, 1-3 steps) changes nothing; futures_crate_path(::fut03) in a crate that has no dependency named futures")
+    rep.set("rule", "E1: all 65 ordered duplicate-free selections of the four options and every selection with one duplicate inserted at every position x 2 value sets x 6 configs: accepted iff duplicate-free, parsed fields equal the written ones, futures_crate_path rejected for sync macros and used for every futures item; E2: depth profiles n<=3,d<=3 x {variadic macro joiner, fixed-arity fn joiner, lazy joiner that invokes its closures in REVERSE order, async joiners} in sync/spawn/async kinds with every failure subset: exactly one joiner event per step with > 1 active branches, arity = active count, result positions, lazy order; transpose_results(false) with a try-collecting joiner and injected joiner failures per step; explicit lazy_branches(false) on the four thread-spawning macros over callable branches (the branch thread calls them); transpose_results(true / false) written on the four non-try kinds (int- and Option-valued branches, 1-3 steps) changes nothing; futures_crate_path(::fut03) in a crate that has no dependency named futures")
     sample_family(rep, progs, fr)
 
 
